@@ -5,7 +5,7 @@ from lib import monitor, recipe, sandbox
 
 INV = ['NoLossNoDup', 'PerProducerFIFO', 'SlotsConserved', 'Capacity', 'FullOnlyWhenFull']
 PROPS = ['JoinExact']
-HINV = ['NoDup', 'NoAlien', 'NoLoss', 'PerProducerFIFO', 'Capacity', 'FullOnlyWhenFull',
+HINV = ['NobodyStuck', 'NoDup', 'NoAlien', 'NoLoss', 'PerProducerFIFO', 'Capacity', 'FullOnlyWhenFull',
         'EmptyOnlyAfterTimeout', 'EmptyOnlyWhenEmpty', 'JoinExact']
 
 
@@ -28,8 +28,10 @@ def main(ctx):
                                properties=PROPS, view=None, workers=6, timeout=1800, heap='6g', budget_ok=True)
     with ThreadPoolExecutor(2) as ex:
         futs = [ex.submit(run, i, c) for i, c in enumerate(units)]
+        scale = sandbox.time_scale()
         rc, hs, log = sandbox.run_driver('harness.queue_main', [ctx.tier],
-                                         timeout=900 if thorough else 400)
+                                         timeout=(900 if thorough else 400) * scale,
+                                         env={'VERIF_TIME_SCALE': str(scale)})
         for i, (c, f) in enumerate(zip(units, futs)):
             recipe.account(ctx, 'queue-design%d' % i, 'Queue', c, f.result())
     if rc != 0 or hs is None:
